@@ -109,6 +109,10 @@ class ExprMixin:
                     k2 = base.name + '.' + cn.attr
                     if k2 in ctx.stubs:
                         return ctx.stubs[k2](self, st, frame)
+            if isinstance(cn, (ast.Tuple, ast.Set)) and all(isinstance(e, ast.Name) for e in cn.elts) and depth < 5:
+                items = [self.lookup_global(module, e.id, st, frame, depth + 1) for e in cn.elts]
+                if all(i is not None for i in items):
+                    return TupleV(items)
             raise VCError('module constant %s.%s is not a literal and has no stub' % (module, name))
         if name in m.imports:
             mod2, n2 = m.imports[name]
